@@ -474,6 +474,35 @@ def _monitor(plog):
     return fails
 
 
+def o_lean_c04(scn, obs, runner, driver):
+    """C04 by Lean: the same packet logs (device view, and host view on clean links) through `Adb.Monitor.check` -- the monitor the theorems of
+    C04Monitor.lean are about.  Any violation it reports is a property failure; a verdict that differs from the Python monitor's is reported too
+    (the two monitors check each other on every run)."""
+    fails = []
+    cmds = (b"OPEN", b"OKAY", b"WRTE", b"CLSE", b"CNXN", b"AUTH", b"SYNC")
+    for ci, c in enumerate(runner.link.used):
+        if c.sim.cfg.get("zero_local"):
+            continue
+        clean = not c.env.get("faults") and not c.env.get("olate") and getattr(c.sim, "corrupted", None) is None
+        views = [("device view", c.sim.log)] + ([("host view", host_view_log(c))] if clean else [])
+        for view, plog in views:
+            evs = []
+            for who, cmd, a0, a1, d in plog:
+                if cmd not in cmds:
+                    continue
+                evs.append("%s,%s,%d,%d,%s" % ("h" if who == "host" else "d", cmd.decode(), a0, a1, (hx(d[-1:]) if cmd == b"OPEN" and d else "-")))
+            if not evs:
+                continue
+            r = driver.ask("monitor " + ";".join(evs))
+            lean = [] if r == "ok" else r.split(",")
+            py = _monitor([p for p in plog if p[1] in cmds])
+            if lean:
+                fails.append(dict(op=None, why="%s of connection %d: Adb.Monitor.check reports %s" % (view, ci, ",".join(lean[:4]))))
+            elif len(lean) != len(py):
+                fails.append(dict(op=None, why="%s of connection %d: the Lean monitor accepts, the Python monitor reports %r" % (view, ci, py[:2])))
+    return fails
+
+
 def o_c04_close_answered(scn, obs, runner):
     """A device CLOSE that a shell-type operation read off the transport for its own, established stream is answered with a CLOSE (clean
     links only; the operation's reader expects exactly WRTE or CLSE once the stream is open, so a consumed CLSE is one it was waiting for)."""
